@@ -802,16 +802,16 @@ impl Exec {
     }
 
     fn txn(&self) -> &'static WriteTransaction {
-        unsafe { &*self.wtx.expect("no write transaction") }
+        unsafe { &*self.wtx.expect("HARNESS: no write transaction") }
     }
 
     fn txn_mut(&mut self) -> &'static mut WriteTransaction {
-        unsafe { &mut *self.wtx.expect("no write transaction") }
+        unsafe { &mut *self.wtx.expect("HARNESS: no write transaction") }
     }
 
     fn take_txn(&mut self) -> Box<WriteTransaction> {
-        assert!(self.wtables.is_empty(), "table handles must be closed first");
-        unsafe { Box::from_raw(self.wtx.take().expect("no write transaction")) }
+        assert!(self.wtables.is_empty(), "HARNESS: table handles must be closed first");
+        unsafe { Box::from_raw(self.wtx.take().expect("HARNESS: no write transaction")) }
     }
 
     pub fn has_wtx(&self) -> bool {
@@ -886,8 +886,13 @@ impl Exec {
         let mut evs = match res {
             Ok(evs) => evs,
             Err(p) => {
-                self.panics += 1;
                 let msg = p.downcast_ref::<String>().cloned().or_else(|| p.downcast_ref::<&str>().map(|s| s.to_string())).unwrap_or_default();
+                if msg.starts_with("HARNESS:") {
+                    // a defect of the script or the harness, never data about redb
+                    eprintln!("{msg} at step {op}");
+                    std::process::exit(3);
+                }
+                self.panics += 1;
                 let mut ev = op.clone();
                 ev["r"] = json!({"panic": msg});
                 vec![ev]
@@ -910,7 +915,7 @@ impl Exec {
         let e = op["e"].as_str().expect("step without e");
         match e {
             "bw" => {
-                assert!(self.wtx.is_none(), "script error: begin_write while a write transaction is live would block forever");
+                assert!(self.wtx.is_none(), "HARNESS: script error: begin_write while a write transaction is live would block forever");
                 let r = match self.db.as_ref().unwrap().begin_write() {
                     Ok(t) => {
                         self.wtx = Some(Box::into_raw(Box::new(t)));
@@ -972,7 +977,7 @@ impl Exec {
             }
             "dr" => {
                 let h = op["h"].as_str().unwrap();
-                self.readers.remove(h).expect("unknown reader");
+                self.readers.remove(h).expect("HARNESS: unknown reader");
                 vec![op.clone()]
             }
             "open" => {
@@ -995,7 +1000,7 @@ impl Exec {
             }
             "close" => {
                 let n = op["n"].as_str().unwrap();
-                self.wtables.remove(n).expect("table not open");
+                self.wtables.remove(n).expect("HARNESS: table not open");
                 vec![op.clone()]
             }
             "rename" => {
@@ -1058,7 +1063,7 @@ impl Exec {
             // table operations through a write handle
             "ins" | "insr" | "getmut" | "entry" | "rem" | "pop" | "retain" | "extract" | "mins" | "mrem" | "mremall" => {
                 let n = op["n"].as_str().unwrap();
-                let h = self.wtables.get_mut(n).expect("table not open");
+                let h = self.wtables.get_mut(n).expect("HARNESS: table not open");
                 let r = h.op(&self.cx, op);
                 let mut evs = Self::with_r(op, r);
                 if matches!(e, "mins" | "mrem" | "mremall") {
@@ -1073,7 +1078,7 @@ impl Exec {
                 let n = op["n"].as_str().unwrap();
                 let src = op.get("src").and_then(|s| s.as_str()).or_else(|| op.get("h").and_then(|s| s.as_str())).unwrap();
                 let r = if src == "w" {
-                    let h = self.wtables.get_mut(n).expect("table not open");
+                    let h = self.wtables.get_mut(n).expect("HARNESS: table not open");
                     h.op(&self.cx, op)
                 } else {
                     let rt = &self.readers[src];
@@ -1102,12 +1107,12 @@ impl Exec {
                 Self::with_r(op, r)
             }
             "itnext" => {
-                let it = self.its.get_mut(op["it"].as_str().unwrap()).expect("unknown iterator");
+                let it = self.its.get_mut(op["it"].as_str().unwrap()).expect("HARNESS: unknown iterator");
                 let r = it.next_n(&self.cx, op["cnt"].as_u64().unwrap(), op["rev"].as_bool().unwrap());
                 Self::with_r(op, r)
             }
             "itdrop" => {
-                self.its.remove(op["it"].as_str().unwrap()).expect("unknown iterator");
+                self.its.remove(op["it"].as_str().unwrap()).expect("HARNESS: unknown iterator");
                 vec![op.clone()]
             }
             "spe" => {
@@ -1121,7 +1126,7 @@ impl Exec {
                 Self::with_r(op, r)
             }
             "spdrop" => {
-                self.sps.remove(op["s"].as_str().unwrap()).expect("unknown savepoint");
+                self.sps.remove(op["s"].as_str().unwrap()).expect("HARNESS: unknown savepoint");
                 vec![op.clone()]
             }
             "spp" => {
@@ -1147,7 +1152,7 @@ impl Exec {
             }
             "spreste" => {
                 let s = op["s"].as_str().unwrap().to_string();
-                let sp = self.sps.remove(&s).expect("unknown savepoint");
+                let sp = self.sps.remove(&s).expect("HARNESS: unknown savepoint");
                 let r = match self.txn_mut().restore_savepoint(&sp) {
                     Ok(()) => ok(json!(0)),
                     Err(e) => er(e),
@@ -1167,7 +1172,7 @@ impl Exec {
                 Self::with_r(op, r)
             }
             "compact" => {
-                assert!(self.wtx.is_none(), "script error: compact with a live write transaction");
+                assert!(self.wtx.is_none(), "HARNESS: script error: compact with a live write transaction");
                 let r = match self.db.as_mut().unwrap().compact() {
                     Ok(b) => ok(json!(b)),
                     Err(e) => er(e),
